@@ -1,6 +1,7 @@
 import HopModel.Driver.C04
 import HopModel.Driver.C05
 import HopModel.Driver.C14
+import HopModel.Driver.C18
 import HopModel.Driver.C20
 import HopModel.Driver.C03
 import HopModel.Driver.C01
@@ -19,6 +20,8 @@ def main (args : List String) : IO UInt32 := do
   | "C05sess" :: rest => Driver.C05.main rest; return 0
   | "C05parse" :: rest => Driver.C05.mainParse rest; return 0
   | "C14" :: rest => Driver.C14.main rest; return 0
+  | "C18" :: rest => Driver.C18.main rest; return 0
+  | "C18junk" :: rest => Driver.C18.main rest; return 0
   | "C20" :: rest => Driver.C20.main rest; return 0
   | "C03" :: rest => Driver.C03.main rest; return 0
   | "C01" :: rest => Driver.C01.main rest; return 0
